@@ -127,6 +127,4 @@ func printMap(title string, m map[string]int64) {
 	}
 }
 
-func cmdRun(args []string) int       { return 2 }
-func cmdReplay(args []string) int    { return 2 }
 func cmdSelfcheck(args []string) int { return 2 }
